@@ -3,67 +3,82 @@ use std::io::{self, Seek, SeekFrom, Write};
 
 /// A sparse, position-only `Write + Seek`: it tracks the absolute stream position (a u64 that may
 /// be symbolic: the start offset and any gap the harness seeks over are `kani::any()` values) and
-/// keeps a log of the writes of 1..=8 bytes (every header field the crate writes is one such write)
-/// as (absolute position, length, big-endian value). Longer writes are payload and are dropped.
-/// Reading back a field is a search of the log by *position equality* -- no array is ever indexed
-/// with a symbolic index. This is how the 4 GiB boundaries are reached without 4 GiB of data.
-pub const LOG: usize = 80;
+/// remembers only what is written at a few *watched* fields: (absolute position, length 1..=8),
+/// registered by the harness before the writes happen. Every header field the crate writes is one
+/// write call of 1..=8 bytes, so a field is caught by comparing the write's position and length with
+/// the watch list -- no array is indexed with a symbolic index and nothing is searched afterwards.
+/// Everything else written is dropped: it stands for payload. This is how the 4 GiB boundaries are
+/// reached without 4 GiB of data.
+pub const WATCH: usize = 8;
 pub struct Sparse {
     pub pos: u64,
     pub end: u64,
     pub n: usize,
-    pub at: [u64; LOG],
-    pub len: [u8; LOG],
-    pub val: [u64; LOG],
+    pub at: [u64; WATCH],
+    pub len: [u8; WATCH],
+    pub val: [Option<u64>; WATCH],
     pub writes: u32,
 }
 
 impl Sparse {
     pub fn new(start: u64) -> Self {
-        Sparse { pos: start, end: start, n: 0, at: [0; LOG], len: [0; LOG], val: [0; LOG], writes: 0 }
+        Sparse { pos: start, end: start, n: 0, at: [0; WATCH], len: [0; WATCH], val: [None; WATCH], writes: 0 }
     }
-    /// the value last written at exactly [abs, abs+len): None if the newest write overlapping that
-    /// range is not exactly that range (or there is none)
-    fn field(&self, abs: u64, len: u8) -> Option<u64> {
-        let mut i = LOG;
-        while i > 0 {
-            i -= 1;
-            if i < self.n {
-                let overlaps = abs < self.at[i] + self.len[i] as u64 && self.at[i] < abs + len as u64;
-                if overlaps {
-                    return if self.at[i] == abs && self.len[i] == len { Some(self.val[i]) } else { None };
-                }
-            }
+    /// watch the field [abs, abs+len); returns its handle
+    pub fn watch(&mut self, abs: u64, len: u8) -> usize {
+        let h = self.n;
+        self.at[h] = abs;
+        self.len[h] = len;
+        self.n += 1;
+        h
+    }
+    fn hit(&mut self, h: usize, n: usize, v: u64) {
+        if h < self.n && self.at[h] == self.pos && self.len[h] as usize == n {
+            self.val[h] = Some(v);
         }
-        None
     }
-    pub fn get(&self, abs: u64) -> Option<u8> {
-        self.field(abs, 1).map(|v| v as u8)
-    }
-    pub fn get32(&self, abs: u64) -> Option<u32> {
-        self.field(abs, 4).map(|v| v as u32)
-    }
-    pub fn get64(&self, abs: u64) -> Option<u64> {
-        self.field(abs, 8)
+    /// last value written to watched field `h` (big-endian), None if it was never written
+    pub fn seen(&self, h: usize) -> Option<u64> {
+        self.val[h]
     }
 }
 
 impl Write for Sparse {
     fn write(&mut self, buf: &[u8]) -> io::Result<usize> {
         self.writes += 1;
-        if buf.len() >= 1 && buf.len() <= 8 && self.n < LOG {
-            let mut v: u64 = 0;
-            let mut i = 0;
-            while i < 8 {
-                if i < buf.len() {
-                    v = (v << 8) | buf[i] as u64;
-                }
-                i += 1;
+        if buf.len() >= 1 && buf.len() <= 8 {
+            // straight-line (no loops: a loop here would force every harness's unwind bound up)
+            let n = buf.len();
+            let mut v: u64 = buf[0] as u64;
+            if n > 1 {
+                v = (v << 8) | buf[1] as u64;
             }
-            self.at[self.n] = self.pos;
-            self.len[self.n] = buf.len() as u8;
-            self.val[self.n] = v;
-            self.n += 1;
+            if n > 2 {
+                v = (v << 8) | buf[2] as u64;
+            }
+            if n > 3 {
+                v = (v << 8) | buf[3] as u64;
+            }
+            if n > 4 {
+                v = (v << 8) | buf[4] as u64;
+            }
+            if n > 5 {
+                v = (v << 8) | buf[5] as u64;
+            }
+            if n > 6 {
+                v = (v << 8) | buf[6] as u64;
+            }
+            if n > 7 {
+                v = (v << 8) | buf[7] as u64;
+            }
+            self.hit(0, n, v);
+            self.hit(1, n, v);
+            self.hit(2, n, v);
+            self.hit(3, n, v);
+            self.hit(4, n, v);
+            self.hit(5, n, v);
+            self.hit(6, n, v);
+            self.hit(7, n, v);
         }
         self.pos += buf.len() as u64;
         if self.pos > self.end {
